@@ -4,11 +4,18 @@ use crate::report::{Config, Tier};
 
 pub mod c01;
 pub mod c04;
+pub mod c08;
+pub mod c09;
 
 pub fn configs(prop: &str, tier: Tier) -> Option<Vec<Box<dyn Config>>> {
     Some(match prop {
         "C01" => c01::configs(tier),
         "C04" => c04::configs(tier),
+        "C08" => c08::configs_c08(tier),
+        "C12" => c08::configs_c12(tier),
+        "C13" => c08::configs_c13(tier),
+        "C09" => c09::configs_c09(tier),
+        "C10" => c09::configs_c10(tier),
         _ => return None,
     })
 }
